@@ -127,3 +127,75 @@ func knownBoundOf(c *Compiler, v ssa.Value) uint64 {
 //@   requires c.ssaBuilder != nil
 //@   ensures[one-check-of-offset-plus-size] oobChecks() == old(oobChecks()) + 1 && gg("oobCode") == int(wazevoapi.ExitCodeTableOutOfBounds) && gg("oobAddX") == int(offset) && gg("oobAddY") == int(size)
 //@   nosafety keep-pre
+
+// ---- C07: the exit code check the compiler emits (at loop headers and before tail calls): an indirect
+// call through the check-module-exit-code trampoline of the execution context.
+func exitChecks() int { return verif_ghost_int("exitChecks") }
+
+//@ prop C07
+//@ iface (b ssa.Builder) VarLengthPool() *wazevoapi.VarLengthPool[ssa.Value]
+//@   ensures r0 != nil
+//@   modifies nothing
+
+//@ func (c *Compiler) allocateVarLengthValues(_cap int, vs ...ssa.Value) ssa.Values
+//@   trusted
+//@   modifies nothing
+
+//@ func (c *Compiler) insertModuleExitCodeCheck()
+//@   requires c.ssaBuilder != nil && exitChecks() >= 0 && exitChecks() < 1<<40
+//@   ensures[one-exit-code-check-emitted] exitChecks() == old(exitChecks()) + 1
+//@   nosafety keep-pre
+
+// (the tail-call lowerings themselves - argument shuffling, jump through the callee - are not under
+// contract: assumed to emit no exit code check of their own)
+//@ func (c *Compiler) lowerTailCallReturnCall(fnIndex uint32)
+//@   trusted
+//@   ensures exitChecks() == old(exitChecks())
+//@ func (c *Compiler) lowerTailCallReturnCallIndirect(typeIndex, tableIndex uint32)
+//@   trusted
+//@   ensures exitChecks() == old(exitChecks())
+//@ iface (b ssa.Builder) SetCurrentSourceOffset(line ssa.SourceOffset)
+//@   modifies nothing
+
+// With close-on-context-done, a tail call is preceded by an exit code check (a cycle of tail calls is as
+// unbounded as a loop).
+//@ case return_call (c *Compiler) lowerCurrentOpcode()
+//@   requires c.ssaBuilder != nil && c.loweringState.pc >= 0 && c.loweringState.pc < len(c.wasmFunctionBody) && c.wasmFunctionBody[c.loweringState.pc] == wasm.OpcodeTailCallReturnCall
+//@   requires c.ensureTermination && !c.loweringState.unreachable && exitChecks() >= 0 && exitChecks() < 1<<40
+//@   ensures[exit-code-check-before-the-tail-call] exitChecks() == old(exitChecks()) + 1
+//@   nosafety keep-pre
+
+//@ case return_call_indirect (c *Compiler) lowerCurrentOpcode()
+//@   requires c.ssaBuilder != nil && c.loweringState.pc >= 0 && c.loweringState.pc < len(c.wasmFunctionBody) && c.wasmFunctionBody[c.loweringState.pc] == wasm.OpcodeTailCallReturnCallIndirect
+//@   requires c.ensureTermination && !c.loweringState.unreachable && exitChecks() >= 0 && exitChecks() < 1<<40
+//@   ensures[exit-code-check-before-the-tail-call] exitChecks() == old(exitChecks()) + 1
+//@   nosafety keep-pre
+
+// (decoding the immediates and the block bookkeeping around a loop header are not under contract:
+// assumed to emit no exit code check and to leave the execution-context value alone)
+//@ func (c *Compiler) readI32u() uint32
+//@   trusted
+//@   modifies c.loweringState.pc
+//@ func (c *Compiler) readBlockType() *wasm.FunctionType
+//@   trusted
+//@   ensures r0 != nil
+//@   modifies c.loweringState.pc
+//@ func (c *Compiler) addBlockParamsFromWasmTypes(tps []wasm.ValueType, blk ssa.BasicBlock)
+//@   trusted
+//@   modifies nothing
+//@ func (c *Compiler) switchTo(originalStackLen int, targetBlk ssa.BasicBlock)
+//@   trusted
+//@   modifies c.loweringState.unreachable, c.loweringState.values
+//@ iface (b ssa.Builder) AllocateBasicBlock() ssa.BasicBlock
+//@   modifies nothing
+// (the pooled argument lists: assumed to touch only the pool)
+//@ func (i ssa.Values) Append(p *wazevoapi.VarLengthPool[ssa.Value], items ...ssa.Value) ssa.Values
+//@   trusted
+//@   modifies nothing
+
+// With close-on-context-done, every loop header starts with an exit code check.
+//@ case loop (c *Compiler) lowerCurrentOpcode()
+//@   requires c.ssaBuilder != nil && c.loweringState.pc >= 0 && c.loweringState.pc < len(c.wasmFunctionBody) && c.wasmFunctionBody[c.loweringState.pc] == wasm.OpcodeLoop
+//@   requires c.ensureTermination && !c.loweringState.unreachable && exitChecks() >= 0 && exitChecks() < 1<<40
+//@   ensures[exit-code-check-at-the-loop-header] exitChecks() == old(exitChecks()) + 1
+//@   nosafety keep-pre
